@@ -1,9 +1,10 @@
 /-
-  C05 allocation accounting: the byte-slice decoder of MultiLineString (likewise MultiPolygon) is NOT
-  linear.  On `nestedMultiInput` (a multi claiming k+1 members followed by k nested one-member multi
-  headers and an empty member) member i is scanned through the k-i remaining headers, each of which
-  runs `make(…, 0, 1)`, and the next member starts just 9 bytes later (re-derived stride of an empty
-  line string): 12·k·(k+1) bytes are requested for an input of 9k+18 bytes, and the decode SUCCEEDS.
+  C05, the former finding C05-wkb-nested-multi-quadratic as a regression statement.  On
+  `nestedMultiInput` (a multi claiming k+1 members followed by k nested one-member multi headers and an
+  empty member) the byte-slice decoder of MultiLineString used to scan member i through the k-i remaining
+  headers (one `make` each) and then advance by just 9 bytes: 12·k·(k+1) bytes requested for an input
+  of 9k+18 bytes, and the decode SUCCEEDED.  A member must now be a plain line string: the first nested
+  header is `ErrIncorrectGeometry`, after the one `make` of the outer multi.
 -/
 import OrbProofs.C05Lemmas
 
@@ -22,27 +23,6 @@ theorem nestedMultiInput_length' (t leaf k : Nat) : (nestedMultiInput t leaf k).
   simp only [nestedMultiInput, List.length_append, List.length_cons, u32_length, nestHeaders_length]
   omega
 
-/-! ### generic steps of the member loop -/
-
-theorem memberLoop_step {β : Type} (scan : Bytes → R (β × Nat)) (stride : β → Nat) (n : Nat) (data : Bytes)
-    (x : β) (s : Nat) (xs : List β) (hs : scan data = .ok (x, s)) (hl : stride x ≤ data.length)
-    (hr : memberLoop scan stride n (data.drop (stride x)) = .ok xs) :
-    memberLoop scan stride (n + 1) data = .ok (x :: xs) := by
-  rw [memberLoop, hs]
-  simp only [sliceFrom, if_pos hl, hr]
-
-theorem memberLoopAlloc_step {β : Type} (scan : Bytes → R (β × Nat)) (scanAlloc : Bytes → Nat)
-    (stride : β → Nat) (n : Nat) (data : Bytes)
-    (x : β) (s : Nat) (hs : scan data = .ok (x, s)) (hl : stride x ≤ data.length) :
-    memberLoopAlloc scan scanAlloc stride (n + 1) data
-      = scanAlloc data + memberLoopAlloc scan scanAlloc stride n (data.drop (stride x)) := by
-  rw [memberLoopAlloc, hs]
-  simp only [sliceFrom, if_pos hl]
-
-theorem memberLoopAlloc_zero {β : Type} (scan : Bytes → R (β × Nat)) (scanAlloc : Bytes → Nat)
-    (stride : β → Nat) (data : Bytes) : memberLoopAlloc scan scanAlloc stride 0 data = 0 := by
-  rw [memberLoopAlloc]
-
 /-! ### headers of the family -/
 
 /-- a little-endian header without SRID -/
@@ -51,161 +31,15 @@ theorem bot_le (t : Nat) (ht : TC t) (body : Bytes) (hb : 1 ≤ body.length) :
   have := unmarshalBOT_hdr .little t 0 body ht (by decide) hb
   simpa only [hdr_zero, orderByte] using this
 
-theorem tc_ls : TC wkb_lineStringType := by unfold TC wkb_lineStringType; omega
 theorem tc_mls : TC wkb_multiLineStringType := by unfold TC wkb_multiLineStringType; omega
-
-/-- `ScanLineString`'s own allocations at nesting budget `f` -/
-def lsScanAlloc (f : Nat) : Bytes → Nat :=
-  scanSingleAlloc wkb_lineStringType wkb_multiLineStringType unmarshalPointsAlloc
-    (unmarshalMultiLineStringAlloc f)
-
-/-- the re-derived stride of `unmarshalMultiLineString` -/
-def lsStride : List (Pt UInt64) → Nat := fun ls => 16 * ls.length + 9
-
-theorem mls_succ (f : Nat) (o : Order) (n : Nat) (rest : Bytes) :
-    unmarshalMultiLineString (f + 1) o (u32 o n ++ rest)
-      = memberLoop (scanLineString f) lsStride (n % 2 ^ 32) rest := by
-  unfold unmarshalMultiLineString
-  rw [unmarshalMultiF]
-  have h4 : ¬ (u32 o n ++ rest).length < 4 := by
-    simp only [List.length_append, u32_length]; omega
-  rw [if_neg h4, rd32_u32, drop_u32]
-  rfl
-
-theorem mlsAlloc_succ (f : Nat) (o : Order) (n : Nat) (rest : Bytes) :
-    unmarshalMultiLineStringAlloc (f + 1) o (u32 o n ++ rest)
-      = szSlice * allocCap (n % 2 ^ 32) wkb_MaxMultiAlloc
-        + memberLoopAlloc (scanLineString f) (lsScanAlloc f) lsStride (n % 2 ^ 32) rest := by
-  unfold unmarshalMultiLineStringAlloc
-  rw [unmarshalMultiFAlloc]
-  have h4 : lenLt (u32 o n ++ rest) 4 = false := by
-    rw [lenLt_eq]; simp only [List.length_append, u32_length, decide_eq_false_iff_not]; omega
-  rw [h4, rd32_u32, drop_u32]
-  rfl
-
-/-- the empty line string's body -/
-theorem unmarshalPoints_zero (tail : Bytes) : unmarshalPoints .little (u32 .little 0 ++ tail) = .ok [] := by
-  unfold unmarshalPoints
-  have h4 : ¬ (u32 Order.little 0 ++ tail).length < 4 := by
-    simp only [List.length_append, u32_length]; omega
-  simp only [if_neg h4, rd32_u32, drop_u32, Nat.zero_mod, Nat.zero_mul, Nat.not_lt_zero, if_false, readPts]
-
-theorem unmarshalPointsAlloc_zero (tail : Bytes) :
-    unmarshalPointsAlloc .little (u32 .little 0 ++ tail) = 0 := by
-  unfold unmarshalPointsAlloc
-  simp only [rd32_u32, Nat.zero_mod, allocCap, Nat.not_lt_zero, if_false, Nat.mul_zero, ite_self,
-    gt_iff_lt]
 
 /-- the bare empty member followed by anything -/
 def leafB (tail : Bytes) : Bytes :=
   1 :: (u32 .little wkb_lineStringType ++ (u32 .little 0 ++ tail))
 
-theorem leafB_length (tail : Bytes) : (leafB tail).length = 9 + tail.length := by
-  simp only [leafB, List.length_cons, List.length_append, u32_length]; omega
-
 theorem nestHeaders_succ_append (t j : Nat) (rest : Bytes) :
     nestHeaders t (j + 1) ++ rest = 1 :: (u32 .little t ++ (u32 .little 1 ++ (nestHeaders t j ++ rest))) := by
   simp only [nestHeaders, List.cons_append, List.append_assoc]
-
-theorem drop9_nest (t j : Nat) (rest : Bytes) :
-    (nestHeaders t (j + 1) ++ rest).drop 9 = nestHeaders t j ++ rest := by
-  rw [nestHeaders_succ_append, show (9 : Nat) = 8 + 1 from rfl, List.drop_succ_cons, ← List.append_assoc]
-  exact List.drop_left' (by simp only [List.length_append, u32_length])
-
-theorem chain_length (j : Nat) (tail : Bytes) :
-    (nestHeaders wkb_multiLineStringType j ++ leafB tail).length = 9 * j + 9 + tail.length := by
-  simp only [List.length_append, nestHeaders_length, leafB_length]; omega
-
-/-! ### one member: the chain of the remaining headers -/
-
-theorem chain (j : Nat) : ∀ (f : Nat) (tail : Bytes), j ≤ f →
-    scanLineString f (nestHeaders wkb_multiLineStringType j ++ leafB tail) = .ok ([], 0)
-    ∧ lsScanAlloc f (nestHeaders wkb_multiLineStringType j ++ leafB tail) = 24 * j := by
-  induction j with
-  | zero =>
-    intro f tail _
-    have hb := bot_le wkb_lineStringType tc_ls (u32 .little 0 ++ tail)
-      (by simp only [List.length_append, u32_length]; omega)
-    constructor
-    · simp only [nestHeaders, List.nil_append, leafB, scanLineString, scanSingle, hb, if_true,
-        unmarshalPoints_zero]
-    · simp only [nestHeaders, List.nil_append, leafB, lsScanAlloc, scanSingleAlloc, hb, if_true,
-        unmarshalPointsAlloc_zero]
-  | succ j ih =>
-    intro f tail hf
-    obtain ⟨f, rfl⟩ : ∃ g, f = g + 1 := ⟨f - 1, by omega⟩
-    have hj : j ≤ f := by omega
-    obtain ⟨ih1, ih2⟩ := ih f tail hj
-    have hlen := chain_length j tail
-    have hne : ¬ wkb_multiLineStringType = wkb_lineStringType := by decide
-    have hb := bot_le wkb_multiLineStringType tc_mls
-      (u32 .little 1 ++ (nestHeaders wkb_multiLineStringType j ++ leafB tail))
-      (by simp only [List.length_append, u32_length]; omega)
-    have hst : lsStride ([] : List (Pt UInt64)) = 9 := rfl
-    have h1 : (1 : Nat) % 2 ^ 32 = 1 := by decide
-    constructor
-    · have hm : memberLoop (scanLineString f) lsStride 1
-          (nestHeaders wkb_multiLineStringType j ++ leafB tail) = .ok [[]] :=
-        memberLoop_step (scanLineString f) lsStride 0 _ [] 0 [] ih1
-          (by rw [hst, hlen]; omega) (by rw [memberLoop])
-      rw [nestHeaders_succ_append]
-      simp only [scanLineString, scanSingle, hb, if_neg hne, if_true]
-      rw [mls_succ, h1]
-      rw [hm]
-    · have hm : memberLoopAlloc (scanLineString f) (lsScanAlloc f) lsStride 1
-          (nestHeaders wkb_multiLineStringType j ++ leafB tail) = 24 * j := by
-        rw [memberLoopAlloc_step (scanLineString f) (lsScanAlloc f) lsStride 0 _ [] 0 ih1
-          (by rw [hst, hlen]; omega), ih2, memberLoopAlloc_zero]
-        rfl
-      have hcap : szSlice * allocCap 1 wkb_MaxMultiAlloc = 24 := by decide
-      rw [nestHeaders_succ_append]
-      simp only [lsScanAlloc, scanSingleAlloc, hb, if_neg hne, if_true]
-      rw [mlsAlloc_succ, h1, hcap]
-      show 24 + memberLoopAlloc (scanLineString f) (lsScanAlloc f) lsStride 1 _ = _
-      rw [hm]
-      omega
-
-/-! ### the enclosing loop -/
-
-theorem loop_ok (j : Nat) : ∀ (f : Nat), j ≤ f →
-    memberLoop (scanLineString f) lsStride (j + 1) (nestHeaders wkb_multiLineStringType j ++ leafB [])
-      = .ok (List.replicate (j + 1) []) := by
-  induction j with
-  | zero =>
-    intro f hf
-    have hc := (chain 0 f [] hf).1
-    exact memberLoop_step _ _ 0 _ [] 0 [] hc
-      (by rw [chain_length]; show 9 ≤ _; omega) (by rw [memberLoop])
-  | succ j ih =>
-    intro f hf
-    have hc := (chain (j + 1) f [] hf).1
-    have hst : lsStride ([] : List (Pt UInt64)) = 9 := rfl
-    refine memberLoop_step _ _ (j + 1) _ [] 0 (List.replicate (j + 1) []) hc
-      (by rw [chain_length, hst]; omega) ?_
-    rw [hst, drop9_nest]
-    exact ih f (by omega)
-
-theorem loop_alloc (j : Nat) : ∀ (f : Nat), j ≤ f →
-    memberLoopAlloc (scanLineString f) (lsScanAlloc f) lsStride (j + 1)
-        (nestHeaders wkb_multiLineStringType j ++ leafB [])
-      = 12 * (j * (j + 1)) := by
-  induction j with
-  | zero =>
-    intro f hf
-    obtain ⟨hc, ha⟩ := chain 0 f [] hf
-    rw [memberLoopAlloc_step _ _ _ 0 _ [] 0 hc (by rw [chain_length]; show 9 ≤ _; omega), ha]
-    rw [memberLoopAlloc_zero]
-  | succ j ih =>
-    intro f hf
-    obtain ⟨hc, ha⟩ := chain (j + 1) f [] hf
-    have hst : lsStride ([] : List (Pt UInt64)) = 9 := rfl
-    rw [memberLoopAlloc_step _ _ _ (j + 1) _ [] 0 hc (by rw [chain_length, hst]; omega), ha, hst,
-      drop9_nest, ih f (by omega)]
-    have : (j + 1) * (j + 1 + 1) = j * (j + 1) + 2 * (j + 1) := by
-      rw [← Nat.add_mul, Nat.mul_comm]
-    rw [this]; omega
-
-/-! ### top level -/
 
 theorem nested_eq (k : Nat) :
     nestedMultiInput wkb_multiLineStringType wkb_lineStringType k
@@ -220,64 +54,54 @@ theorem nested_bot (k : Nat) :
   rw [nested_eq]
   exact bot_le _ tc_mls _ (by simp only [List.length_append, u32_length]; omega)
 
-/-- the decode succeeds: k+1 empty line strings -/
-theorem nested_unmarshal_ok' (k : Nat) (hk : k + 1 < 2 ^ 32) :
-    unmarshal (nestedMultiInput wkb_multiLineStringType wkb_lineStringType k)
-      = .ok (.multiLineString (List.replicate (k + 1) []), 0) := by
-  have hfuel : (nestedMultiInput wkb_multiLineStringType wkb_lineStringType k).length
-      = (9 * k + 17) + 1 := by rw [nestedMultiInput_length']
-  have hmod : (k + 1) % 2 ^ 32 = k + 1 := Nat.mod_eq_of_lt hk
-  have hl := loop_ok k (9 * k + 17) (by omega)
+/-! ### the first member is a nested multi: rejected -/
+
+/-- a member that is itself a MultiLineString is the wrong geometry, and costs nothing -/
+theorem scanMember_nested (j : Nat) (tail : Bytes) :
+    scanMember wkb_lineStringType unmarshalPoints (nestHeaders wkb_multiLineStringType (j + 1) ++ tail)
+      = .err .incorrectGeometry
+    ∧ scanMemberAlloc wkb_lineStringType unmarshalPointsAlloc
+        (nestHeaders wkb_multiLineStringType (j + 1) ++ tail) = 0 := by
+  have hb := bot_le wkb_multiLineStringType tc_mls
+    (u32 .little 1 ++ (nestHeaders wkb_multiLineStringType j ++ tail))
+    (by simp only [List.length_append, u32_length]; omega)
+  have hne : wkb_multiLineStringType ≠ wkb_lineStringType := by decide
+  rw [nestHeaders_succ_append]
+  exact ⟨by simp only [scanMember, hb, hne, ne_eq, not_false_eq_true, if_true],
+         by simp only [scanMemberAlloc, hb, hne, ne_eq, not_false_eq_true, if_true]⟩
+
+/-- the decode fails at the first nested header … -/
+theorem nested_unmarshal_rejected' (k : Nat) (hk : k + 2 < 2 ^ 32) :
+    unmarshal (nestedMultiInput wkb_multiLineStringType wkb_lineStringType (k + 1))
+      = .err .incorrectGeometry := by
+  have hmod : (k + 1 + 1) % 2 ^ 32 = k + 1 + 1 := Nat.mod_eq_of_lt hk
+  have h4 : ¬ (u32 Order.little (k + 1 + 1) ++
+      (nestHeaders wkb_multiLineStringType (k + 1) ++ leafB [])).length < 4 := by
+    simp only [List.length_append, u32_length]; omega
+  have n1 : ¬ wkb_multiLineStringType = wkb_pointType := by decide
+  have n2 : ¬ wkb_multiLineStringType = wkb_multiPointType := by decide
+  have n3 : ¬ wkb_multiLineStringType = wkb_lineStringType := by decide
   unfold unmarshal
   rw [nested_bot]
-  simp only [hfuel]
-  rw [mls_succ, hmod, hl]
+  simp only [if_neg n1, if_neg n2, if_neg n3, if_true, unmarshalMultiLineString, unmarshalMultiF, if_neg h4,
+    rd32_u32, drop_u32, hmod, memberLoop, (scanMember_nested k (leafB [])).1]
+
+/-- … having requested the outer `make` and nothing else. -/
+theorem nested_unmarshalAlloc' (k : Nat) (hk : k + 2 < 2 ^ 32) :
+    unmarshalAlloc (nestedMultiInput wkb_multiLineStringType wkb_lineStringType (k + 1))
+      = szSlice * allocCap (k + 2) wkb_MaxMultiAlloc := by
+  have hmod : (k + 1 + 1) % 2 ^ 32 = k + 1 + 1 := Nat.mod_eq_of_lt hk
+  have h4 : lenLt (u32 Order.little (k + 1 + 1) ++
+      (nestHeaders wkb_multiLineStringType (k + 1) ++ leafB [])) 4 = false := by
+    rw [lenLt_eq]; simp only [List.length_append, u32_length, decide_eq_false_iff_not]; omega
   have n1 : ¬ wkb_multiLineStringType = wkb_pointType := by decide
   have n2 : ¬ wkb_multiLineStringType = wkb_multiPointType := by decide
   have n3 : ¬ wkb_multiLineStringType = wkb_lineStringType := by decide
-  simp only [if_neg n1, if_neg n2, if_neg n3, if_true]
-
-/-- what the decoder's own `make` calls request on it -/
-theorem nested_unmarshalAlloc' (k : Nat) (hk : k + 1 < 2 ^ 32) :
-    unmarshalAlloc (nestedMultiInput wkb_multiLineStringType wkb_lineStringType k)
-      = szSlice * allocCap (k + 1) wkb_MaxMultiAlloc + 12 * (k * (k + 1)) := by
-  have hfuel : (nestedMultiInput wkb_multiLineStringType wkb_lineStringType k).length
-      = (9 * k + 17) + 1 := by rw [nestedMultiInput_length']
-  have hmod : (k + 1) % 2 ^ 32 = k + 1 := Nat.mod_eq_of_lt hk
-  have hl := loop_alloc k (9 * k + 17) (by omega)
   unfold unmarshalAlloc
   rw [nested_bot]
-  simp only [hfuel]
-  rw [mlsAlloc_succ, hmod, hl]
-  have n1 : ¬ wkb_multiLineStringType = wkb_pointType := by decide
-  have n2 : ¬ wkb_multiLineStringType = wkb_multiPointType := by decide
-  have n3 : ¬ wkb_multiLineStringType = wkb_lineStringType := by decide
-  simp only [if_neg n1, if_neg n2, if_neg n3, if_true]
-
-/-- No linear bound with constants that fit the format's own 32-bit counts holds for `Unmarshal`. -/
-theorem unmarshalAlloc_exceeds' (c K : Nat) (h : c + K + 3 < 2 ^ 32) :
-    ∃ bs : Bytes, c * bs.length + K < unmarshalAlloc bs := by
-  refine ⟨nestedMultiInput wkb_multiLineStringType wkb_lineStringType (c + K + 2), ?_⟩
-  rw [nested_unmarshalAlloc' _ (by omega), nestedMultiInput_length']
-  generalize szSlice * allocCap (c + K + 2 + 1) wkb_MaxMultiAlloc = a
-  have e1 : (c + K + 2) * (c + K + 2 + 1) = (c + K + 2) * c + (c + K + 2) * (K + 3) := by
-    rw [← Nat.mul_add]; congr 1
-  have e2 : c * (9 * (c + K + 2) + 18) = 9 * ((c + K + 2) * c) + 18 * c := by
-    rw [Nat.mul_add, Nat.mul_comm c (9 * _), Nat.mul_assoc, Nat.mul_comm c 18]
-  have e3 : (c + K + 2) * (K + 3) = c * K + K * K + 3 * c + 5 * K + 6 := by
-    simp only [Nat.mul_add, Nat.add_mul]; omega
-  rw [e1, e2, e3]
-  generalize (c + K + 2) * c = p
-  generalize c * K = q
-  generalize K * K = r
-  omega
-
-/-- in particular not the property's bound (the one that holds for the stream decoder) -/
-theorem unmarshalAlloc_not_linear' :
-    ¬ ∀ bs : Bytes, unmarshalAlloc bs ≤ allocPerByte * bs.length + allocFixed := by
-  intro hall
-  obtain ⟨bs, hbs⟩ := unmarshalAlloc_exceeds' allocPerByte allocFixed (by decide)
-  have := hall bs
-  omega
+  simp only [if_neg n1, if_neg n2, if_neg n3, if_true, unmarshalMultiLineStringAlloc, unmarshalMultiFAlloc, h4,
+    rd32_u32, drop_u32, hmod, memberLoopAlloc, (scanMember_nested k (leafB [])).1,
+    (scanMember_nested k (leafB [])).2]
+  rfl
 
 end Orb.WKB
